@@ -7,7 +7,7 @@ Definition in_copy (n0 : nat) (h : heap) (t : addr) : Prop := n0 <= t < length h
 Record Inv (h0 : heap) (s : state) : Prop := {
   inv_len : length h0 <= length (fst s);
   inv_memo : forall x y, In (x, y) (snd s) -> in_copy (length h0) (fst s) y;
-  inv_closed : forall i o, length h0 <= i -> nth_error (fst s) i = Some o -> forall k t, In (k, t) (fields o) -> in_copy (length h0) (fst s) t;
+  inv_closed : forall i o, length h0 <= i -> nth_error (fst s) i = Some o -> forall k t, In (k, t) (fields o) -> k <> Dead -> in_copy (length h0) (fst s) t;
   inv_orig : firstn (length h0) (fst s) = h0
 }.
 
@@ -42,22 +42,28 @@ Definition good_rec (h0 : heap) (rec : state -> addr -> option (state * addr)) :
   forall s a s' a', Inv h0 s -> rec s a = Some (s', a') ->
     Inv h0 s' /\ in_copy (length h0) (fst s') a' /\ length (fst s) <= length (fst s').
 
-Lemma copy_fields_inv h0 rec fs : good_rec h0 rec -> forall s s' out, Inv h0 s -> copy_fields rec fs s = Some (s', out) ->
-  Inv h0 s' /\ length (fst s) <= length (fst s') /\ (forall k t, In (k, t) out -> in_copy (length h0) (fst s') t) /\
+Lemma copy_fields_inv h0 kd rec fs : good_rec h0 rec -> forall s s' out, Inv h0 s -> copy_fields_with kd rec fs s = Some (s', out) ->
+  Inv h0 s' /\ length (fst s) <= length (fst s') /\ (forall k t, In (k, t) out -> k <> Dead -> in_copy (length h0) (fst s') t) /\
   map fst out = map fst fs.
 Proof.
-  intro G. induction fs as [|[k t] rest IH]; intros s s' out I E; cbn [copy_fields] in E.
-  - inversion E; subst. split; [exact I|]. split; [lia|]. split; [intros ? ? []| reflexivity].
-  - destruct (rec s t) as [[s1 t']|] eqn:R; [|discriminate].
-    destruct (copy_fields rec rest s1) as [[s2 out']|] eqn:C; [|discriminate]. inversion E; subst.
-    destruct (G _ _ _ _ I R) as [I1 [T1 L1]]. destruct (IH _ _ _ I1 C) as [I2 [L2 [O2 M2]]].
-    split; [exact I2|]. split; [lia|]. split; [|cbn [map fst]; f_equal; exact M2].
-    intros k' t'' [H|H]; [inversion H; subst; unfold in_copy in *; lia | apply (O2 _ _ H)].
+  intro G. induction fs as [|[k t] rest IH]; intros s s' out I E.
+  - cbn [copy_fields_with] in E. inversion E; subst. split; [exact I|]. split; [lia|]. split; [intros ? ? []| reflexivity].
+  - destruct k; cbn [copy_fields_with] in E.
+    3: { destruct kd; [|discriminate].
+         destruct (copy_fields_with true rec rest s) as [[s2 out']|] eqn:C; [|discriminate]. inversion E; subst.
+         destruct (IH _ _ _ I C) as [I2 [L2 [O2 M2]]].
+         split; [exact I2|]. split; [exact L2|]. split; [|cbn [map fst]; f_equal; exact M2].
+         intros k' t'' [H|H] ND; [inversion H; subst; contradiction | apply (O2 _ _ H ND)]. }
+    all: destruct (rec s t) as [[s1 t']|] eqn:R; [|discriminate];
+      destruct (copy_fields_with kd rec rest s1) as [[s2 out']|] eqn:C; [|discriminate]; inversion E; subst;
+      destruct (G _ _ _ _ I R) as [I1 [T1 L1]]; destruct (IH _ _ _ I1 C) as [I2 [L2 [O2 M2]]];
+      (split; [exact I2|]); (split; [lia|]); (split; [|cbn [map fst]; f_equal; exact M2]);
+      intros k' t'' [H|H] ND; [inversion H; subst; unfold in_copy in *; lia | apply (O2 _ _ H ND)].
 Qed.
 
-Lemma dcopy_good h0 fuel : good_rec h0 (dcopy fuel).
+Lemma dcopy_good h0 kd fuel : good_rec h0 (dcopy_with kd fuel).
 Proof.
-  induction fuel as [|f IH]; intros [h m] a s' a' I E; cbn [dcopy] in E.
+  induction fuel as [|f IH]; intros [h m] a s' a' I E; cbn [dcopy_with] in E.
   - destruct (mlookup m a) as [y|] eqn:L; [|discriminate]. inversion E; subst.
     destruct (mlookup_in _ _ _ L) as [x Hx]. split; [exact I|]. split; [apply (inv_memo _ _ I x); exact Hx | lia].
   - destruct (mlookup m a) as [y|] eqn:L.
@@ -67,7 +73,7 @@ Proof.
     set (a1 := length h) in *.
     set (h1 := h ++ [{| early := early o; fields := [] |}]) in *.
     set (m1 := if early o then (a, a1) :: m else m) in *.
-    destruct (copy_fields (dcopy f) (fields o) (h1, m1)) as [[[h2 m2] out]|] eqn:C; [|discriminate].
+    destruct (copy_fields_with kd (dcopy_with kd f) (fields o) (h1, m1)) as [[[h2 m2] out]|] eqn:C; [|discriminate].
     inversion E; subst s' a'. clear E.
     pose proof (inv_len _ _ I) as L0. cbn [fst snd] in L0.
     assert (Lh1 : length h1 = S (length h)) by (unfold h1; rewrite app_length; cbn; lia).
@@ -77,12 +83,12 @@ Proof.
       - intros x y Hxy. unfold in_copy. unfold m1 in Hxy. destruct (early o).
         + destruct Hxy as [H|H]; [inversion H; subst; unfold a1; lia|]. pose proof (inv_memo _ _ I x y H) as P. unfold in_copy in P. cbn [fst] in P. lia.
         + pose proof (inv_memo _ _ I x y Hxy) as P. unfold in_copy in P. cbn [fst] in P. lia.
-      - intros i o' Li Ni k t Hk. unfold h1 in Ni.
+      - intros i o' Li Ni k t Hk ND. unfold h1 in Ni.
         destruct (Nat.lt_ge_cases i (length h)) as [Lt|Ge].
-        + rewrite nth_error_app1 in Ni by exact Lt. pose proof (inv_closed _ _ I i o' Li Ni k t Hk) as P. unfold in_copy in *. cbn [fst] in P. lia.
+        + rewrite nth_error_app1 in Ni by exact Lt. pose proof (inv_closed _ _ I i o' Li Ni k t Hk ND) as P. unfold in_copy in *. cbn [fst] in P. lia.
         + rewrite nth_error_app2 in Ni by exact Ge. destruct (i - length h) as [|j] eqn:D; cbn in Ni; [inversion Ni; subst; destruct Hk | destruct j; discriminate].
       - unfold h1. rewrite firstn_app. replace (length h0 - length h) with 0 by lia. cbn [firstn]. rewrite app_nil_r. apply (inv_orig _ _ I). }
-    destruct (copy_fields_inv h0 (dcopy f) (fields o) IH _ _ _ I1 C) as [I2 [L2 [O2 _]]]. cbn [fst snd] in *.
+    destruct (copy_fields_inv h0 kd (dcopy_with kd f) (fields o) IH _ _ _ I1 C) as [I2 [L2 [O2 _]]]. cbn [fst snd] in *.
     assert (A1 : a1 < length h2) by lia.
     split; [|split]; cbn [fst snd].
     + constructor; cbn [fst snd].
@@ -90,11 +96,11 @@ Proof.
       * intros x y Hxy. unfold in_copy. rewrite length_set_nth.
         assert (P : (x, y) = (a, a1) \/ In (x, y) m2) by (destruct (early o); [right; exact Hxy | destruct Hxy as [H|H]; [left; symmetry; exact H | right; exact H]]).
         destruct P as [P|P]; [inversion P; subst; unfold a1; lia|]. pose proof (inv_memo _ _ I2 x y P) as Q. unfold in_copy in Q. cbn [fst] in Q. lia.
-      * intros i o' Li Ni k t Hk. unfold in_copy. rewrite length_set_nth.
+      * intros i o' Li Ni k t Hk ND. unfold in_copy. rewrite length_set_nth.
         destruct (Nat.eq_dec a1 i) as [Eq|Ne].
         -- subst i. rewrite nth_set_nth_same in Ni by exact A1. inversion Ni; subst o'. cbn [fields] in Hk.
-           pose proof (O2 k t Hk) as Q. unfold in_copy in Q. lia.
-        -- rewrite nth_set_nth_other in Ni by exact Ne. pose proof (inv_closed _ _ I2 i o' Li Ni k t Hk) as Q. unfold in_copy in Q. cbn [fst] in Q. lia.
+           pose proof (O2 k t Hk ND) as Q. unfold in_copy in Q. lia.
+        -- rewrite nth_set_nth_other in Ni by exact Ne. pose proof (inv_closed _ _ I2 i o' Li Ni k t Hk ND) as Q. unfold in_copy in Q. cbn [fst] in Q. lia.
       * rewrite firstn_set_nth by (unfold a1; lia). apply (inv_orig _ _ I2).
     + unfold in_copy. rewrite length_set_nth. unfold a1. lia.
     + rewrite length_set_nth. lia.
@@ -105,3 +111,49 @@ Proof.
   constructor; cbn [fst snd]; [lia | intros ? ? [] | | apply firstn_all].
   intros i o L N. assert (i < length h0) by (apply nth_error_Some; congruence). lia.
 Qed.
+
+(* the kinds of an object's fields survive the copy, position by position: strong stays strong, weak stays weak, a dead reference stays dead
+   and nothing else becomes dead *)
+Lemma copy_fields_kinds kd rec fs : forall s s' out, copy_fields_with kd rec fs s = Some (s', out) -> map fst out = map fst fs.
+Proof.
+  induction fs as [|[k t] rest IH]; intros s s' out E.
+  - cbn [copy_fields_with] in E. inversion E; reflexivity.
+  - destruct k; cbn [copy_fields_with] in E.
+    3: { destruct kd; [|discriminate]. destruct (copy_fields_with true rec rest s) as [[s2 out']|] eqn:C; [|discriminate].
+         inversion E; subst. cbn [map fst]. f_equal. apply (IH _ _ _ C). }
+    all: destruct (rec s t) as [[s1 t']|]; [|discriminate];
+      destruct (copy_fields_with kd rec rest s1) as [[s2 out']|] eqn:C; [|discriminate]; inversion E; subst;
+      cbn [map fst]; f_equal; apply (IH _ _ _ C).
+Qed.
+
+Theorem root_copy_keeps_kinds fuel h0 root h' m r : deepcopy fuel h0 root = Some ((h', m), r) ->
+  exists o o', nth_error h0 root = Some o /\ nth_error h' r = Some o' /\ map fst (fields o') = map fst (fields o) /\ early o' = early o.
+Proof.
+  unfold deepcopy, dcopy. intro E. destruct fuel as [|f]; cbn [dcopy_with mlookup] in E; [discriminate|].
+  destruct (nth_error h0 root) as [o|] eqn:N; [|discriminate].
+  match type of E with context [copy_fields_with ?a ?b ?c ?d] => destruct (copy_fields_with a b c d) as [[[h2 m2] out]|] eqn:C; [|discriminate] end.
+  inversion E; subst. clear E.
+  exists o, {| early := early o; fields := out |}. split; [reflexivity|]. split.
+  - apply nth_set_nth_same.
+    assert (G : good_rec h0 (dcopy_with true f)) by apply dcopy_good.
+    assert (I1 : Inv h0 (h0 ++ [{| early := early o; fields := [] |}], if early o then [(root, length h0)] else [])).
+    { constructor; cbn [fst snd].
+      - rewrite app_length. cbn. lia.
+      - intros x y Hxy. unfold in_copy. rewrite app_length. cbn. destruct (early o); [|destruct Hxy].
+        destruct Hxy as [H|[]]. inversion H; subst. lia.
+      - intros i o' Li Ni k t Hk ND. destruct (Nat.lt_ge_cases i (length h0)) as [Lt|Ge]; [lia|].
+        rewrite nth_error_app2 in Ni by exact Ge. destruct (i - length h0) as [|j]; cbn in Ni; [inversion Ni; subst; destruct Hk | destruct j; discriminate].
+      - rewrite firstn_app. replace (length h0 - length h0) with 0 by lia. cbn [firstn]. rewrite app_nil_r. apply firstn_all. }
+    destruct (copy_fields_inv h0 true (dcopy_with true f) (fields o) G _ _ _ I1 C) as [_ [L2 _]]. cbn [fst] in L2. rewrite app_length in L2. cbn in L2. lia.
+  - split; [|reflexivity]. cbn [fields]. apply (copy_fields_kinds _ _ _ _ _ _ C).
+Qed.
+
+(* the pinned behaviour (before the repair): one dead back-reference on the object that is copied makes the whole deep copy fail; the repaired copy
+   succeeds and keeps the reference dead *)
+Definition orphan_heap : heap := [{| early := true; fields := [(Dead, 0); (Strong, 1)] |}; {| early := true; fields := [(Weak, 0)] |}].
+Lemma dead_reference_pinned_fails :
+  deepcopy_pinned 10 orphan_heap 0 = None /\
+  exists h' m, deepcopy 10 orphan_heap 0 = Some ((h', m), 2) /\
+               nth_error h' 2 = Some {| early := true; fields := [(Dead, 0); (Strong, 3)] |} /\
+               nth_error h' 3 = Some {| early := true; fields := [(Weak, 2)] |}.
+Proof. split; [vm_compute; reflexivity|]. eexists. eexists. vm_compute. repeat split. Qed.
